@@ -2,12 +2,13 @@
    Statements only; models in Incl/InclModel.v (classification) and Incl/TouchModel.v (the touch tests in binary64 / DPE /
    truncated multiprecision arithmetic, run against the real functions on every check), proofs in Incl/InclGeom.v,
    Incl/InclProps.v, Incl/TouchProps.v (axis tests, f and d), Incl/TouchMp.v (mpf_get_rdpe, multiprecision axis tests),
-   Incl/TouchUnitReal.v + Incl/TouchUnitD.v / Incl/TouchUnitF.v (unit-circle test, DPE / binary64 incl. cplx_mod). *)
+   Incl/TouchUnitReal.v + Incl/TouchUnitD.v / Incl/TouchUnitF.v (unit-circle test, DPE / binary64 incl. cplx_mod; shipped and
+   repaired), Incl/InclPhase.v (one root through mps_{f,d}update_inclusions, from the stored numbers to geometry). *)
 From Coq Require Import ZArith Reals Lra Lia List Bool Arith.
 From Flocq Require Import Core BinarySingleNaN.
 Require Import MPSV.Dpe.DpeDefs MPSV.Dpe.DpeModel.
 Require Import MPSV.Incl.InclModel MPSV.Incl.InclGeom MPSV.Incl.InclProps MPSV.Incl.TouchModel MPSV.Incl.TouchExch MPSV.Incl.TouchProps.
-Require Import MPSV.Incl.TouchMp MPSV.Incl.TouchUnitReal MPSV.Incl.TouchUnitD MPSV.Incl.TouchUnitF.
+Require Import MPSV.Incl.TouchMp MPSV.Incl.TouchUnitReal MPSV.Incl.TouchUnitD MPSV.Incl.TouchUnitF MPSV.Incl.InclPhase.
 Import ListNotations.
 Local Open Scope R_scope.
 
@@ -318,6 +319,13 @@ Theorem C08_cplx_mod_error : forall x y : b64, is_finite x = true -> is_finite y
 Proof. exact cplx_mod_f_spec. Qed.
 Print Assumptions C08_cplx_mod_error.
 
+(* the hypothesis `cplx_mod does not overflow' of the theorems below holds whenever both parts are at most 2^1022 in magnitude *)
+Theorem C08_cplx_mod_finite : forall x y : b64, is_finite x = true -> is_finite y = true ->
+  Rabs (B2R x) <= bpow radix2 1022 -> Rabs (B2R y) <= bpow radix2 1022 ->
+  is_finite (cplx_mod_f x y) = true.
+Proof. exact cplx_mod_f_finite. Qed.
+Print Assumptions C08_cplx_mod_finite.
+
 (* --- mps_ftouchunit as coded (DBL_MAX / n guard, n * frad, cplx_mod, the two rounded sums): for every factor n >= 2 (the code
        passes 2 * degree), finite centre and radius >= 0 and a modulus that does not overflow, `no touch' puts the closed disc
        D(z, r) strictly on one side of the unit circle AND the side tests of mps_fupdate_inclusions (cplx_mod (z) < 1, > 1) name
@@ -351,6 +359,112 @@ Proof.
   split; [vm_compute; reflexivity|]. split; [vm_compute; reflexivity|]. split; [vm_compute; reflexivity|].
   split; [vm_compute; reflexivity|]. rewrite MPSV.Dpe.DpeProps.B2R_fhalf. change (/ 2) with (bpow radix2 (-1)). apply bpow_le. lia.
 Qed.
+
+(* --- REPAIRED tests (fixes/C08_funit_allowance.patch, fixes/C08_dunit_allowance.patch: the scaled radius is inflated by
+       8 DBL_EPSILON (ab + 1) before the two comparisons; TouchModel.ftouch_unit_fixed / dtouch_unit_fixed, run against the real
+       functions whenever the tree has the patches).  `no touch' implies n * r < | |z| - 1 | EXACTLY - the full factor, every n >= 1,
+       every radius, no corner - and the side tests name the side. *)
+Theorem C08_ftouch_unit_fixed_sound : forall (n : Z) (r x y : b64),
+  (1 <= n < 2 ^ 31)%Z -> is_finite r = true -> is_finite x = true -> is_finite y = true -> 0 <= B2R r ->
+  is_finite (cplx_mod_f x y) = true ->
+  ftouch_unit_fixed n r x y = false ->
+  (IZR n * B2R r + 1 < fmod2 x y /\ flt (cplx_mod_f x y) fone = false /\ fgt (cplx_mod_f x y) fone = true) \/
+  (fmod2 x y + IZR n * B2R r < 1 /\ flt (cplx_mod_f x y) fone = true /\ fgt (cplx_mod_f x y) fone = false).
+Proof. exact ftouch_unit_fixed_sound. Qed.
+Print Assumptions C08_ftouch_unit_fixed_sound.
+
+Theorem C08_dtouch_unit_fixed_sound : forall (n : Z) (r : rdpe) (z : cdpe),
+  (1 <= n < 2 ^ 31)%Z -> normalised r -> 0 <= rval r -> (Z.abs (esp r) <= 2 ^ 60)%Z ->
+  cnormalised z -> csmall z ->
+  dtouch_unit_fixed n r z = false ->
+  (IZR n * rval r + 1 < zmod z /\ rdpe_le (cdpe_mod z) rdpe_one = false /\ rdpe_ge (cdpe_mod z) rdpe_one = true) \/
+  (zmod z + IZR n * rval r < 1 /\ rdpe_le (cdpe_mod z) rdpe_one = true /\ rdpe_ge (cdpe_mod z) rdpe_one = false).
+Proof. exact dtouch_unit_fixed_sound. Qed.
+Print Assumptions C08_dtouch_unit_fixed_sound.
+
+(* the repaired tests answer `touch' on the witnesses of the refutations below, and still `clear' well away from the circle *)
+Example C08_touch_unit_fixed_nonvacuous :
+  ftouch_unit_fixed 2 wit_fr wit_fx wit_fy = true /\ dtouch_unit_fixed 2 (dpe_of_dyadic 1 (-56)) wit_dz = true /\
+  ftouch_unit_fixed 2 fhalf ftwo ftwo = false /\ ftouch_unit_fixed 2 (f_of_dyadic 1 (-3)) fzero fzero = false /\
+  dtouch_unit_fixed 4 (Rdpe fhalf 0) (Cdpe (Rdpe fhalf 3) rdpe_zero) = false /\
+  dtouch_unit_fixed 2 (Rdpe fhalf (-3)) (Cdpe (Rdpe fhalf 0) rdpe_zero) = false.
+Proof. repeat split; vm_compute; reflexivity. Qed.
+
+(* --- ONE ROOT THROUGH mps_fupdate_inclusions / mps_dupdate_inclusions, from the numbers the code holds to geometry: the record
+       of outcomes is computed by TouchModel.f_obs / d_obs from the stored centre and radius in the arithmetic of the phase
+       (all touch tests and side expressions), the decision is InclModel.classify, the conclusion is about every point of the
+       closed disc D(z, r): IN -> strictly inside the set, OUT -> strictly outside, for the seven geometric search sets
+       (geometric_set: all but the two lines, whose IN verdict rests on the separation bound).  This discharges the hypothesis
+       obs_sound of C08_inclusion_sound for the float and DPE phases outside the rounding corner of the unit-circle test, and
+       everywhere with the repaired tests. *)
+Theorem C08_fclassify_sound : forall (n : Z) (x y r : b64),
+  (1 <= n)%Z -> (2 * n < 2 ^ 31)%Z -> is_finite x = true -> is_finite y = true -> is_finite r = true -> 0 <= B2R r ->
+  forall (small rs : bool) (cn : nat) (a : attrs) (st : search_set),
+  is_finite (cplx_mod_f x y) = true ->
+  bpow radix2 (-49) <= B2R r \/ bpow radix2 (-48) <= Rabs (fmod2 x y - 1) ->
+  geometric_set st ->
+  forall px py : R, in_disc (B2R x) (B2R y) (B2R r) px py ->
+  claim_ok st (classify st rs cn (f_obs n x y r small) a) px py.
+Proof. exact f_classify_sound. Qed.
+Print Assumptions C08_fclassify_sound.
+
+Theorem C08_fclassify_fixed_sound : forall (n : Z) (x y r : b64),
+  (1 <= n)%Z -> (2 * n < 2 ^ 31)%Z -> is_finite x = true -> is_finite y = true -> is_finite r = true -> 0 <= B2R r ->
+  forall (small rs : bool) (cn : nat) (a : attrs) (st : search_set),
+  is_finite (cplx_mod_f x y) = true ->
+  geometric_set st ->
+  forall px py : R, in_disc (B2R x) (B2R y) (B2R r) px py ->
+  claim_ok st (classify st rs cn (f_obs_fixed n x y r small) a) px py.
+Proof. exact f_classify_fixed_sound. Qed.
+Print Assumptions C08_fclassify_fixed_sound.
+
+Theorem C08_dclassify_sound : forall (n : Z) (z : cdpe) (r : rdpe),
+  (1 <= n)%Z -> (2 * n < 2 ^ 31)%Z -> cnormalised z -> csmall z -> normalised r -> 0 <= rval r -> (Z.abs (esp r) <= 2 ^ 60)%Z ->
+  forall (small rs : bool) (cn : nat) (a : attrs) (st : search_set),
+  bpow radix2 (-49) <= rval r \/ bpow radix2 (-48) <= Rabs (zmod z - 1) ->
+  geometric_set st ->
+  forall px py : R, in_disc (rval (cre z)) (rval (cim z)) (rval r) px py ->
+  claim_ok st (classify st rs cn (d_obs n z r small) a) px py.
+Proof. exact d_classify_sound. Qed.
+Print Assumptions C08_dclassify_sound.
+
+Theorem C08_dclassify_fixed_sound : forall (n : Z) (z : cdpe) (r : rdpe),
+  (1 <= n)%Z -> (2 * n < 2 ^ 31)%Z -> cnormalised z -> csmall z -> normalised r -> 0 <= rval r -> (Z.abs (esp r) <= 2 ^ 60)%Z ->
+  forall (small rs : bool) (cn : nat) (a : attrs) (st : search_set),
+  geometric_set st ->
+  forall px py : R, in_disc (rval (cre z)) (rval (cim z)) (rval r) px py ->
+  claim_ok st (classify st rs cn (d_obs_fixed n z r small) a) px py.
+Proof. exact d_classify_fixed_sound. Qed.
+Print Assumptions C08_dclassify_fixed_sound.
+
+(* the same in the multiprecision phase for the four half planes: exact coordinates xm * 2^xe, ym * 2^ye of any precision
+   (mps_mtouchreal/imag and the side tests see them through mpf_get_rdpe), DPE radius; the unit-circle outcomes of m_obs come
+   from mpc_mod (C08_mtouch_unit_sound_partial) *)
+Theorem C08_mclassify_halfplane_sound : forall (n xm xe ym ye : Z) (r : rdpe),
+  (1 <= n)%Z -> (2 * n < 2 ^ 31)%Z -> normalised r -> 0 <= rval r -> (LONG_MIN + 2000 <= esp r <= LONG_MAX - 2000)%Z ->
+  (LONG_MIN + 2000 <= xe)%Z -> (xe + Z.log2 (Z.abs xm) <= LONG_MAX - 2000)%Z ->
+  (LONG_MIN + 2000 <= ye)%Z -> (ye + Z.log2 (Z.abs ym) <= LONG_MAX - 2000)%Z ->
+  forall (tu iu ic small rs : bool) (cn : nat) (a : attrs) (st : search_set),
+  half_plane st ->
+  forall px py : R, in_disc (dy xm xe) (dy ym ye) (rval r) px py ->
+  claim_ok st (classify st rs cn (m_obs n xm xe ym ye r tu iu ic small) a) px py.
+Proof. exact m_classify_halfplane_sound. Qed.
+Print Assumptions C08_mclassify_halfplane_sound.
+
+(* z = 2 + 2i, r = 1/2, degree 1: OUT for the open unit disc, IN for its complement, IN for the right half plane and the upper
+   half plane, OUT for the left one; z = 0, r = 1/8: IN for the unit disc and UNKNOWN for every half plane *)
+Example C08_fclassify_nonvacuous :
+  fst (classify S_UNIT false 1 (f_obs 1 ftwo ftwo fhalf false) A_NONE) = OUT /\
+  fst (classify S_UNIT_COMPL false 1 (f_obs 1 ftwo ftwo fhalf false) A_NONE) = IN /\
+  fst (classify S_POS_RE false 1 (f_obs 1 ftwo ftwo fhalf false) A_NONE) = IN /\
+  fst (classify S_NEG_RE false 1 (f_obs 1 ftwo ftwo fhalf false) A_NONE) = OUT /\
+  fst (classify S_POS_IM false 1 (f_obs 1 ftwo ftwo fhalf false) A_NONE) = IN /\
+  fst (classify S_UNIT false 1 (f_obs 1 fzero fzero (f_of_dyadic 1 (-3)) false) A_NONE) = IN /\
+  fst (classify S_POS_RE false 1 (f_obs 1 fzero fzero (f_of_dyadic 1 (-3)) false) A_NONE) = UNKNOWN /\
+  fst (classify S_UNIT_COMPL false 1 (d_obs 1 (Cdpe (Rdpe fhalf 3) rdpe_zero) (Rdpe fhalf 0) false) A_NONE) = IN /\
+  fst (classify S_NEG_IM false 1 (d_obs 1 (Cdpe (Rdpe fhalf 3) (Rdpe fmhalf 3)) (Rdpe fhalf 0) false) A_NONE) = IN /\
+  fst (classify S_NEG_RE false 1 (m_obs 1 (-9007199254740993) (-52) 1 0 (Rdpe fhalf (-1)) true false false false) A_NONE) = IN.
+Proof. repeat split; vm_compute; reflexivity. Qed.
 
 (* --- PARTIAL: mps_mtouchunit.  The decision on the DPE ab ~ |z| - 1 (rdpe_mul_d, rdpe_lt, rdpe_neg_eq, rdpe_ge: the code of
        /repo after fixes/C08_munit_tangent.patch) is proved: if ab is within delta of |z| - 1 and delta <= (n (1 - u) - 1) r,
